@@ -80,6 +80,9 @@ type Path struct {
 	merge     *mergeCtx
 	cli       *cliState
 	violTerm  *Term // the negated assertion that was found satisfiable
+	preEqOf   map[[2]int]*Term // (hash code, hash code) -> equality of their preimages (the iff axiom's right side)
+	rep       map[*Term]*Term // equality substitution: variable -> representative (variable or constant)
+	canonMemo map[*Term]*Term
 }
 
 // mergeCtx: a pure callee is run once per outcome of its single symbolic branch and
@@ -285,6 +288,45 @@ func (p *Path) lookupLit(c *Term) (bool, bool) {
 	if ok {
 		return v, true
 	}
+	if c.op == OEq && p.preEqOf != nil && c.args[0].w == 64 {
+		// two hash codes are equal exactly when their preimages are (iff axiom on the path)
+		x, y := c.args[0].id, c.args[1].id
+		if x > y {
+			x, y = y, x
+		}
+		if pe, ok := p.preEqOf[[2]int{x, y}]; ok {
+			pe = p.canon(pe)
+			if pe.IsConst() {
+				return pe.val == 1, true
+			}
+			if pe != c {
+				if v, ok := p.lookupLit(pe); ok {
+					return v, true
+				}
+			}
+		}
+	}
+	if c.op == OUlt || c.op == OSlt {
+		// strict order: antisymmetry and trichotomy with decided literals
+		a, b := c.args[0], c.args[1]
+		tt := p.tt()
+		rev := tt.cmp(c.op, b, a)
+		eq := tt.Eq(a, b)
+		rv, rok := p.lits[rev.id]
+		ev, eok := p.lits[eq.id]
+		if eq.IsConst() {
+			ev, eok = eq.val == 1, true
+		}
+		if rok && rv {
+			return false, true
+		}
+		if eok && ev {
+			return false, true
+		}
+		if rok && !rv && eok && !ev {
+			return true, true
+		}
+	}
 	// conjunction of known-true literals / disjunction with a known-true member
 	if c.op == OAnd {
 		all := true
@@ -336,8 +378,75 @@ func (p *Path) nextEvent(kind byte) *Event {
 	return nil
 }
 
+// find returns the representative of a variable under the equalities decided on the path.
+func (p *Path) find(v *Term) *Term {
+	for {
+		r, ok := p.rep[v]
+		if !ok {
+			return v
+		}
+		v = r
+	}
+}
+
+// canon rewrites t over representatives (sound: the equalities are part of the path condition).
+func (p *Path) canon(t *Term) *Term {
+	if !useCanon || len(p.rep) == 0 {
+		return t
+	}
+	if r, ok := p.canonMemo[t]; ok {
+		return r
+	}
+	var r *Term
+	switch t.op {
+	case OConst:
+		r = t
+	case OVar:
+		r = p.find(t)
+	default:
+		args := make([]*Term, len(t.args))
+		changed := false
+		for i, a := range t.args {
+			args[i] = p.canon(a)
+			if args[i] != a {
+				changed = true
+			}
+		}
+		if changed {
+			r = p.tt().Rebuild(t, args)
+		} else {
+			r = t
+		}
+	}
+	p.canonMemo[t] = r
+	return r
+}
+
+// union records v = w for a variable v (w a variable or constant of the same width).
+func (p *Path) union(a, b *Term) {
+	if !useCanon {
+		return
+	}
+	a, b = p.canon(a), p.canon(b)
+	if a == b {
+		return
+	}
+	if a.op != OVar {
+		a, b = b, a
+	}
+	if a.op != OVar || (b.op != OVar && b.op != OConst) || a.w != b.w {
+		return
+	}
+	if p.rep == nil {
+		p.rep = map[*Term]*Term{}
+	}
+	p.rep[a] = b
+	p.canonMemo = map[*Term]*Term{}
+}
+
 // Branch decides a symbolic condition for this path.
 func (p *Path) Branch(c *Term) bool {
+	c = p.canon(c)
 	if c.IsConst() {
 		return c.val == 1
 	}
@@ -377,6 +486,9 @@ func (p *Path) Branch(c *Term) bool {
 		ev.Val = 1
 	}
 	res, m := p.query(lit)
+	if qstats {
+		p.w.notes["q:"+classify(c)+":"+res]++
+	}
 	switch res {
 	case "sat":
 		ev.Alt = true
@@ -401,6 +513,9 @@ func (p *Path) commit(c *Term, side bool, forced bool) {
 		lit = p.tt().Not(c)
 	}
 	p.noteLit(lit, true)
+	if side && c.op == OEq && c.args[0].w > 0 {
+		defer p.union(c.args[0], c.args[1])
+	}
 	if !forced {
 		p.pc = append(p.pc, lit)
 		if p.model != nil {
@@ -429,6 +544,7 @@ func (p *Path) Choice(n int) int {
 
 // Assume restricts the path.
 func (p *Path) Assume(c *Term) {
+	c = p.canon(c)
 	if c.IsConst() {
 		if c.val == 0 {
 			panic(pathEnd{"assumed", ""})
@@ -479,6 +595,7 @@ func (p *Path) Assume(c *Term) {
 // Assert checks a property obligation on this path.
 func (p *Path) Assert(c *Term, msg string) {
 	p.oblig++
+	c = p.canon(c)
 	if c.IsConst() {
 		if c.val == 1 {
 			p.dischargd++
@@ -540,6 +657,36 @@ func (p *Path) violation(kind, msg string) {
 // concretize forks over the values of an integer term (small domains only).
 var debugModel = os.Getenv("GOSYM_DEBUG") != ""
 var useAssuming = os.Getenv("GOSYM_ASSUMING") != ""
+var qstats = os.Getenv("GOSYM_QSTATS") != ""
+var useCanon = os.Getenv("GOSYM_NOCANON") == ""
+
+func classify(c *Term) string {
+	neg := ""
+	if c.op == ONot {
+		neg = "!"
+		c = c.args[0]
+	}
+	k := func(t *Term) string {
+		switch {
+		case t.op == OVar && strings.HasPrefix(t.name, "h64"):
+			return "h"
+		case t.op == OVar:
+			return "v"
+		case t.op == OConst:
+			return "c"
+		case t.op == OConcat:
+			return "cat"
+		case t.op == OExtract:
+			return "ext"
+		}
+		return fmt.Sprintf("op%d", t.op)
+	}
+	s := fmt.Sprintf("%sop%d", neg, c.op)
+	for _, a := range c.args {
+		s += "," + k(a)
+	}
+	return s
+}
 
 func (p *Path) checkModel(where string) {
 	if !debugModel || p.model == nil {
@@ -702,6 +849,16 @@ func (p *Path) hashApply(pre []*Term, site string) *Term {
 			continue
 		}
 		pe := p.preEq(pre, a.pre)
+		if useCanon {
+			if p.preEqOf == nil {
+				p.preEqOf = map[[2]int]*Term{}
+			}
+			x, y := h.id, a.h.id
+			if x > y {
+				x, y = y, x
+			}
+			p.preEqOf[[2]int{x, y}] = pe
+		}
 		if p.known["hash.alias"] && site != a.site && (unprefixedSite(site) || unprefixedSite(a.site)) && !(pe.IsConst() && pe.val == 0) {
 			// listed finding: preimages of hashing sites without a type prefix can coincide with
 			// preimages of other sites; that region is assumed away, the codes are then distinct
